@@ -11,6 +11,10 @@ import (
 	"github.com/reeflective/readline/internal/ui"
 )
 
+// maxNestedRuns is the number of times macros can be run by the keys of other
+// macros (or their own) before the shell needs to read keys from the user again.
+const maxNestedRuns = 20
+
 // validMacroKeys - All valid macro IDs (keys) for read/write Vim registers.
 var validMacroKeys = "abcdefghijklmnopqrstuvwxyzABCDEFGHIJKLMNOPQRSTUVWXYZ0123456789\""
 
@@ -22,6 +26,7 @@ type Engine struct {
 	currentKey rune            // The identifier of the macro being recorded.
 	macros     map[rune]string // All previously recorded macros.
 	started    bool
+	nested     int // Number of macros run since the keys fed by macros have all been used.
 
 	keys   *core.Keys // The engine feeds macros directly in the key stack.
 	hint   *ui.Hint   // The engine notifies when macro recording starts/stops.
@@ -41,6 +46,11 @@ func NewEngine(keys *core.Keys, hint *ui.Hint) *Engine {
 // RecordKeys is being passed every key read by the shell, and will save
 // those entered while the engine is in record mode. All others are ignored.
 func RecordKeys(eng *Engine) {
+	// Once all the keys fed by macros are used, we are back to user input.
+	if core.FedKeys(eng.keys) == 0 {
+		eng.nested = 0
+	}
+
 	if !eng.recording {
 		return
 	}
@@ -117,7 +127,7 @@ func (e *Engine) RunLastMacro() {
 
 	macro := inputrc.Unescape(e.macros[rune(0)])
 
-	if len(macro) == 0 {
+	if len(macro) == 0 || e.tooManyRuns() {
 		return
 	}
 
@@ -135,12 +145,20 @@ func (e *Engine) RunMacro(key rune) {
 	}
 
 	macro := e.macros[key]
-	if len(macro) == 0 {
+	if len(macro) == 0 || e.tooManyRuns() {
 		return
 	}
 
 	macro = strings.ReplaceAll(macro, `\e`, "\x1b")
 	e.keys.Feed(false, []rune(macro)...)
+}
+
+// tooManyRuns counts the macros run from within macros, and returns true when a
+// macro that (directly or not) runs itself should stop, instead of looping forever.
+func (e *Engine) tooManyRuns() bool {
+	e.nested++
+
+	return e.nested > maxNestedRuns
 }
 
 // PrintLastMacro dumps the last recorded macro sequence to the screen.
